@@ -323,6 +323,204 @@ impl Gen for Peers {
     fn same(&self, o: &Self) -> bool { self.a == o.a && self.b == o.b && self.id == o.id && self.prev == o.prev && self.at == o.at && self.until == o.until }
 }
 
+// ----- reading a converted value back as the argument of a registered filter or function (tera/src/args.rs): the same
+// round trip through the third door. A number comes back as the Rust type asked for exactly when it fits that type —
+// whatever width, signedness or floatness it was given with — and is refused otherwise, never wrapped, truncated or
+// saturated; `Kwargs::deserialize` gives back the struct whose fields were passed.
+#[derive(Serialize, Deserialize, Debug, Clone)]
+pub struct ArgS { a: i32, b: String, c: Option<f64>, d: Vec<u16>, e: u128, f: i8, g: bool, m: BTreeMap<String, i64>, en: UnitOnly, t: (u8, String) }
+impl Gen for ArgS {
+    fn gen(rng: &mut Rng, d: usize) -> Self {
+        ArgS { a: Gen::gen(rng, d), b: Gen::gen(rng, d), c: Gen::gen(rng, d), d: Gen::gen(rng, d + 2), e: Gen::gen(rng, d), f: Gen::gen(rng, d), g: Gen::gen(rng, d), m: Gen::gen(rng, d + 2), en: Gen::gen(rng, d), t: Gen::gen(rng, d) }
+    }
+    fn same(&self, o: &Self) -> bool { format!("{self:?}") == format!("{o:?}") }
+}
+
+/// exact value of a number given to the engine: sign and magnitude, or a float
+#[derive(Debug, Clone, Copy)]
+enum Exact { Int(bool, u128), Float(f64) }
+
+fn arg_engine() -> Tera {
+    use tera::{Kwargs, State};
+    let mut t = Tera::default();
+    t.autoescape_on(Vec::<&'static str>::new());
+    let mut tpls: Vec<(String, String)> = vec![("rbs".into(), "{{ rbs(a=a, b=b, c=c, d=d, e=e, f=f, g=g, m=m, en=en, t=t) }}".into()), ("vec_i64".into(), "{{ v | as_vec_i64 }}".into()), ("vec_u8".into(), "{{ rb_vec_u8(x=v) }}".into()), ("as_str".into(), "{{ v | as_string }}\u{1}{{ v }}".into())];
+    macro_rules! reg {
+        ($($ty:ident),*) => {$(
+            t.register_filter(concat!("as_", stringify!($ty)), |v: $ty, _: Kwargs, _: &State| format!("{v:?}"));
+            t.register_function(concat!("rb_", stringify!($ty)), |kw: Kwargs, _: &State| -> tera::TeraResult<String> { Ok(format!("{:?}", kw.must_get::<$ty>("x")?)) });
+            tpls.push((concat!("f_", stringify!($ty)).to_string(), concat!("{{ v | as_", stringify!($ty), " }}").to_string()));
+            tpls.push((concat!("k_", stringify!($ty)).to_string(), concat!("{{ rb_", stringify!($ty), "(x=v) }}").to_string()));
+        )*};
+    }
+    reg!(u8, u16, u32, u64, u128, usize, i8, i16, i32, i64, i128, isize, f32, f64, bool);
+    t.register_filter("as_vec_i64", |v: Vec<i64>, _: Kwargs, _: &State| format!("{v:?}"));
+    t.register_function("rb_vec_u8", |kw: Kwargs, _: &State| -> tera::TeraResult<String> { Ok(format!("{:?}", kw.must_get::<Vec<u8>>("x")?)) });
+    t.register_filter("as_string", |v: String, _: Kwargs, _: &State| v);
+    t.register_function("rbs", |kw: Kwargs, _: &State| -> tera::TeraResult<String> { Ok(format!("{:?}", kw.deserialize::<ArgS>()?)) });
+    t.add_raw_templates(tpls).expect("C19 argument templates");
+    t
+}
+
+fn argument_readback(cx: &mut Cx, t: &Tera, rng: &mut Rng) {
+    // ---- one number, given in a random width, read back as every numeric type through a filter receiver, a keyword
+    //      argument and TryFrom<Value>
+    macro_rules! given {
+        ($($ty:ident),*) => {{
+            let tys = [$(stringify!($ty)),*];
+            let pick = tys[rng.below(tys.len())];
+            let mut out: Option<(Value, Exact, &'static str)> = None;
+            $( if pick == stringify!($ty) {
+                let x = <$ty as Gen>::gen(rng, 0);
+                #[allow(unused_comparisons)]
+                let ex = Exact::Int(x < 0, (x as i128).unsigned_abs().max(if x < 0 { 0 } else { x as u128 }));
+                out = Some((Value::try_from_serializable(&x).unwrap(), ex, stringify!($ty)));
+            } )*
+            out.unwrap()
+        }};
+    }
+    let (val, exact, given_as) = if rng.chance(1, 4) {
+        let f = match rng.below(6) {
+            0 => <f64 as Gen>::gen(rng, 0),
+            1 => (rng.range(-300, 300) as f64).trunc(),
+            2 => *rng.pick(&[255.0, 256.0, -128.0, -129.0, 65535.0, 65536.0, 2147483648.0, 4294967296.0, 9223372036854775808.0, 18446744073709551616.0, 1.7014118346046923e38, -1.7014118346046923e38, 3.402823669209385e38, 1e39, -0.0, 0.5, -0.5, 254.99999999999997]),
+            3 => *rng.pick(&[f64::NAN, f64::INFINITY, f64::NEG_INFINITY, 3.4028234663852886e38, 3.4028235677973366e38, -3.4028235677973366e38, 1e300]),
+            _ => (rng.next() >> rng.below(64)) as f64 * if rng.bool() { 1.0 } else { -1.0 },
+        };
+        (Value::from(f), Exact::Float(f), "f64")
+    } else {
+        given!(i8, i16, i32, i64, i128, u8, u16, u32, u64, u128)
+    };
+    let mut ctx = Context::new();
+    ctx.insert_value("v", val.clone());
+    macro_rules! int_target {
+        ($($ty:ident),*) => {$({
+            // what exact arithmetic says
+            let (must, exp): (Option<bool>, Option<String>) = match exact {
+                Exact::Int(neg, mag) => {
+                    let fits = if neg { mag <= (<$ty>::MIN as i128).unsigned_abs() } else { mag <= <$ty>::MAX as u128 };
+                    (Some(fits), fits.then(|| format!("{}{mag}", if neg && mag != 0 { "-" } else { "" })))
+                }
+                Exact::Float(f) => {
+                    if !f.is_finite() || f.trunc() != f {
+                        (Some(false), None)
+                    } else if f.abs() >= 3.402823669209385e38 {
+                        (Some(false), None)
+                    } else {
+                        let (neg, mag) = (f < 0.0, f.abs() as u128);
+                        let fits = if neg { mag <= (<$ty>::MIN as i128).unsigned_abs() } else { mag <= <$ty>::MAX as u128 };
+                        // whole floats that fit the target but not i128 may be refused (the conversion goes through i128)
+                        let must = if fits && f.abs() >= 1.7014118346046923e38 { None } else { Some(fits) };
+                        (must, fits.then(|| format!("{}{mag}", if neg && mag != 0 { "-" } else { "" })))
+                    }
+                }
+            };
+            let direct = guard(|| <$ty>::try_from(val.clone()).map(|x| format!("{x:?}")).map_err(|e| e.to_string()));
+            let outs = [("filter receiver", guard(|| t.render(concat!("f_", stringify!($ty)), &ctx).map_err(|e| e.to_string()))), ("keyword argument", guard(|| t.render(concat!("k_", stringify!($ty)), &ctx).map_err(|e| e.to_string()))), ("TryFrom<Value>", direct)];
+            cx.evals(3);
+            for (door, o) in outs {
+                cx.count("argument_readbacks", 1);
+                let replay = json!({"given_as": given_as, "value": format!("{exact:?}"), "read_as": stringify!($ty), "through": door});
+                match o {
+                    Err(p) => cx.violation(&format!("C19/panic/{}", panic_site(&p)), format!("reading {exact:?} as {} through a {door} panicked: {p}", stringify!($ty)), replay),
+                    Ok(Ok(s)) => {
+                        cx.cell(format!("argument|{given_as}|{}|{door}|ok", stringify!($ty)));
+                        if exp.as_deref() != Some(s.as_str()) {
+                            cx.violation(&format!("C19/argument-altered/{}", stringify!($ty)), format!("{exact:?} (given as {given_as}) read as {} through a {door} came back as {s}{}", stringify!($ty), match &exp { Some(e) => format!(", exactly it is {e}"), None => " although it does not fit".to_string() }), replay);
+                        }
+                    }
+                    Ok(Err(e)) => {
+                        cx.cell(format!("argument|{given_as}|{}|{door}|refused", stringify!($ty)));
+                        if must == Some(true) {
+                            cx.violation(&format!("C19/argument-refused/{}", stringify!($ty)), format!("{exact:?} (given as {given_as}) fits {} but reading it through a {door} failed: {}", stringify!($ty), clip(&e, 200)), replay);
+                        }
+                    }
+                }
+            }
+        })*};
+    }
+    int_target!(u8, u16, u32, u64, u128, usize, i8, i16, i32, i64, i128, isize);
+    // ---- float targets: the nearest float; f32 refuses finite numbers beyond its range
+    let as_f64: f64 = match exact { Exact::Int(neg, mag) => if neg { -(mag as f64) } else { mag as f64 }, Exact::Float(f) => f };
+    let as_f32: Option<f32> = match exact {
+        Exact::Int(neg, mag) => { let x = if neg { -(mag as f32) } else { mag as f32 }; x.is_finite().then_some(x) }
+        Exact::Float(f) => { let x = f as f32; (x.is_finite() || !f.is_finite()).then_some(x) }
+    };
+    for (ty, exp) in [("f64", Some(format!("{as_f64:?}"))), ("f32", as_f32.map(|x| format!("{x:?}")))] {
+        for (door, name) in [("filter receiver", format!("f_{ty}")), ("keyword argument", format!("k_{ty}"))] {
+            cx.eval();
+            cx.count("argument_readbacks", 1);
+            let replay = json!({"given_as": given_as, "value": format!("{exact:?}"), "read_as": ty, "through": door});
+            match guard(|| t.render(&name, &ctx).map_err(|e| e.to_string())) {
+                Err(p) => cx.violation(&format!("C19/panic/{}", panic_site(&p)), format!("reading {exact:?} as {ty} panicked: {p}"), replay),
+                Ok(Ok(s)) => {
+                    cx.cell(format!("argument|{given_as}|{ty}|{door}|ok"));
+                    if exp.as_deref() != Some(s.as_str()) {
+                        cx.violation(&format!("C19/argument-altered/{ty}"), format!("{exact:?} (given as {given_as}) read as {ty} through a {door} came back as {s}, expected {exp:?}"), replay);
+                    }
+                }
+                Ok(Err(e)) => {
+                    cx.cell(format!("argument|{given_as}|{ty}|{door}|refused"));
+                    if exp.is_some() {
+                        cx.violation(&format!("C19/argument-refused/{ty}"), format!("{exact:?} (given as {given_as}) read as {ty} through a {door} failed: {}", clip(&e, 200)), replay);
+                    }
+                }
+            }
+        }
+    }
+    // ---- a bool argument takes booleans only; a String argument is the text the template would print
+    for (door, name) in [("filter receiver", "f_bool"), ("keyword argument", "k_bool")] {
+        cx.eval();
+        if let Ok(Ok(s)) = guard(|| t.render(name, &ctx).map_err(|e| e.to_string())) {
+            cx.violation("C19/argument-altered/bool", format!("the number {exact:?} read as bool through a {door} came back as {s}"), json!({"value": format!("{exact:?}")}));
+        }
+    }
+    cx.eval();
+    match guard(|| t.render("as_str", &ctx).map_err(|e| e.to_string())) {
+        Ok(Ok(s)) => {
+            let (a, b) = s.split_once('\u{1}').unwrap_or(("", "?"));
+            if a != b {
+                cx.violation("C19/argument-altered/String", format!("{exact:?} read as String is {a:?}, printed by a template {b:?}"), json!({"value": format!("{exact:?}")}));
+            }
+        }
+        Ok(Err(e)) => cx.violation("C19/argument-refused/String", format!("{exact:?} read as String failed: {}", clip(&e, 200)), json!({"value": format!("{exact:?}")})),
+        Err(p) => cx.violation(&format!("C19/panic/{}", panic_site(&p)), format!("reading {exact:?} as String panicked: {p}"), json!({"value": format!("{exact:?}")})),
+    }
+    // ---- sequences: element-wise, refused as a whole when one element does not fit
+    let xs: Vec<i128> = (0..rng.below(5)).map(|_| match rng.below(4) { 0 => <i64 as Gen>::gen(rng, 0) as i128, 1 => <u8 as Gen>::gen(rng, 0) as i128, 2 => <i128 as Gen>::gen(rng, 0), _ => rng.range(-3, 300) as i128 }).collect();
+    let mut c2 = Context::new();
+    c2.insert("v", &xs);
+    for (name, fits, exp) in [
+        ("vec_i64", xs.iter().all(|x| i64::try_from(*x).is_ok()), format!("{:?}", xs.iter().map(|x| *x as i64).collect::<Vec<_>>())),
+        ("vec_u8", xs.iter().all(|x| u8::try_from(*x).is_ok()), format!("{:?}", xs.iter().map(|x| *x as u8).collect::<Vec<_>>())),
+    ] {
+        cx.eval();
+        cx.count("argument_readbacks", 1);
+        cx.cell(format!("argument|sequence|{name}|{}", if fits { "fits" } else { "does-not-fit" }));
+        let replay = json!({"sequence": format!("{xs:?}"), "read_as": name});
+        match guard(|| t.render(name, &c2).map_err(|e| e.to_string())) {
+            Ok(Ok(s)) if fits && s == exp => {}
+            Ok(Err(_)) if !fits => {}
+            Ok(o) => cx.violation(&format!("C19/argument-altered/{name}"), format!("{xs:?} read as {name}: {:?}; {}", o.map(|s| clip(&s, 200)).map_err(|e| clip(&e, 200)), if fits { format!("expected {exp}") } else { "an element does not fit: it must be refused".to_string() }), replay),
+            Err(p) => cx.violation(&format!("C19/panic/{}", panic_site(&p)), format!("reading {xs:?} as {name} panicked: {p}"), replay),
+        }
+    }
+    // ---- a struct passed field by field as keyword arguments and read back with Kwargs::deserialize
+    let st = ArgS::gen(rng, 0);
+    let exp = format!("{st:?}");
+    cx.eval();
+    cx.count("argument_structs_read_back", 1);
+    let r = guard(|| {
+        let c = Context::from_serialize(&st).map_err(|e| e.to_string())?;
+        t.render("rbs", &c).map_err(|e| e.to_string())
+    });
+    match r {
+        Ok(Ok(s)) if s == exp => {}
+        Ok(o) => cx.violation("C19/roundtrip-altered/ArgS/Kwargs::deserialize", format!("{exp} passed field by field and read back with Kwargs::deserialize: {:?}", o.map(|s| clip(&s, 400)).map_err(|e| clip(&e, 300))), json!({"value": clip(&exp, 1500)})),
+        Err(p) => cx.violation(&format!("C19/panic/{}", panic_site(&p)), format!("Kwargs::deserialize panicked on {exp}: {p}"), json!({"value": clip(&exp, 1500)})),
+    }
+}
+
 struct Eng {
     tera: Tera,
 }
@@ -440,6 +638,7 @@ pub fn run(cx: &mut Cx) {
     tera.autoescape_on(Vec::<&'static str>::new());
     tera.add_raw_template("p", "{{ v }}").unwrap();
     let eng = Eng { tera };
+    let argt = arg_engine();
     let total = cx.total(20_000, 1_000_000);
     macro_rules! rt {
         ($cx:expr, $rng:expr, $($t:ty),* $(,)?) => {$( roundtrip::<$t>($cx, &eng, $rng, stringify!($t)); )*};
@@ -458,6 +657,9 @@ pub fn run(cx: &mut Cx) {
         {
             use std::net::{Ipv4Addr, Ipv6Addr, SocketAddrV6};
             rt!(cx, rng, Ipv6Addr, Vec<Ipv6Addr>, (Ipv6Addr, Ipv6Addr), BTreeMap<String, Ipv6Addr>, Vec<Ipv4Addr>, Vec<SocketAddrV6>, Hex32, Vec<Hex32>, Holder<(Hex32, Hex32)>, BTreeMap<Hex32, i32>, Vec<Stamp>, (Stamp, Stamp, Hex32), Peers, Vec<Peers>, Option<Hex32>, BTreeMap<i8, Hex32>);
+        }
+        for _ in 0..6 {
+            argument_readback(cx, &argt, rng);
         }
         // ---- a key that is not a string, integer or bool must be refused, not altered
         for bk in [BadKey::Float, BadKey::Tuple, BadKey::Struct, BadKey::Unit, BadKey::NoneK, BadKey::Bytes, BadKey::Seq, BadKey::MapK, BadKey::NewtypeVariant, BadKey::SomeFloat, BadKey::F32] {
